@@ -49,3 +49,12 @@ Theorem C01_determinize_total : forall (b : bool) (A : enfa N), wf A ->
   forall n, (3 * 2 ^ length (e_states A) < 2 ^ n)%nat -> exists D, determinize b A n = Some D.
 Proof. exact determinize_total. Qed.
 Print Assumptions C01_determinize_total.
+
+(* minimize(): the specification-level model (live states grouped by language equivalence, quotient; Proofs/Minimize.v) keeps the
+   language and is deterministic, for every DFA; pyformlang's result is tied to it by its certificates (see C02_minimize_canonical) *)
+From PFL Require Import Oracle.EnfaEquiv Oracle.EnfaMinimal Model.Minimize Proofs.Minimize.
+Theorem C01_minimize_model : forall (Q : Type) (E : EqDec Q) (C : Canon Q) (A : enfa Q) (n : nat),
+  is_dfa A -> wf A -> (forall p q, enfa_equiv (reroot A p) (reroot A q) n <> None) ->
+  lang_eq (minimize_model A n) A /\ is_dfa (minimize_model A n).
+Proof. intros Q E C A n D W Hf. split; [apply minimize_lang; assumption|apply minimize_dfa; assumption]. Qed.
+Print Assumptions C01_minimize_model.
